@@ -61,7 +61,7 @@ def DTables.nonneg (t : DTables) : Bool :=
   t.finite && (t.P.all (· ≥ 0)) && (t.F.all (· ≥ 0)) && (t.E.all (· ≥ 0))
 
 /-- a built-in transition model: `Hmm.AutoTM` / `Hmm.FullTM` (rows = C19's simplices, equilibrium
-vector = row 0 of P^256 by C04's `pow`) -/
+vector by squaring until the rows agree) -/
 inductive TM where
   | auto (m : AutoTM Float)
   | full (m : FullTM Float)
